@@ -26,8 +26,8 @@ func Run(c *hx.Ctx) {
 	correspondence(c)
 	imgRdFamilies(c) // reading side over image bytes (imgrd.go)
 	imgWrFamilies(c) // writing side down to the bytes (imgwr.go)
-	lookupTables(c)   // fragment / id / export tables at the block boundaries (lookup.go)
-	frag512Image(c)   // one image with exactly 512 fragment blocks (lookup.go)
+	lookupTables(c)  // fragment / id / export tables at the block boundaries (lookup.go)
+	frag512Image(c)  // one image with exactly 512 fragment blocks (lookup.go)
 }
 
 type caseOut struct {
